@@ -35,10 +35,11 @@ MINIMUMS = {
 }
 
 FNS = [kinds.two, kinds.three, kinds.node, kinds.Base, kinds.Mid, kinds.Leaf, kinds.Other,
-       kinds.Base, kinds.Mid]
+       kinds.Base, kinds.Mid, kinds.Hooked]
 LEAVES = [0, 1, 'a', None, (1, 2), 2.5, kinds.Color.RED]
 SELECT_FNS = [kinds.Base, kinds.Base, kinds.Base, kinds.Mid, kinds.Mid, kinds.Leaf, kinds.Other,
-              kinds.two, kinds.node, kinds.three]
+              kinds.two, kinds.node, kinds.three,
+              kinds.VirtualBase, kinds.VirtualBase, kinds.Hooked]     # virtual subclasses (ABC)
 BTYPES = {'Buildable': Buildable, 'Config': fdl.Config, 'Partial': fdl.Partial}
 
 
